@@ -181,8 +181,8 @@ PROPS["C05"] = {
              "Unpack accepts the slug when all links are relative. Non-trivial = tree has an out-of-tree, sibling-prefix, chained, directory "
              "or root-re-entering link; distinct by case hash."),
     "assumptions": ["absolute in-tree links stored with their absolute target are existing tested behaviour", "link cycles are C19's domain"],
-    "quick": [rapid("leak", "^TestPropLeak$", 1800, shards=4)],
-    "thorough": [rapid("leak", "^TestPropLeak$", 15000, shards=14)],
+    "quick": [rapid("leak", "^TestPropLeak$", 1800, shards=4), rapid("deeplink", "^TestPropDeepLink$", 100, shards=1)],
+    "thorough": [rapid("leak", "^TestPropLeak$", 15000, shards=14), rapid("deeplink", "^TestPropDeepLink$", 1000, shards=1)],
 }
 
 PROPS["C20"] = {
